@@ -725,6 +725,13 @@ class TrajectoryStore:
                     'data fields'
                 )
 
+        # Required fields must have values. Check this before touching any
+        # state, so that a rejected trajectory leaves the store exactly as it
+        # was (it used to be detected half-way through writing).
+        for name, field in trajectory._data_dictionary.items():
+            if field.required and trajectory._data.get(name) is None:
+                raise ValueError(f'Data field "{name}" is None in added trajectory')
+
         # Decide on whether or not we can index the store, checking consistency
         # on this decision with each trajectory we add.
         has_flight_id = (
